@@ -1,10 +1,14 @@
 #!/bin/bash
-# runs every seeded change against the check of the property it breaks; prints one line per change
+# runs every seeded change against the check of the property it breaks (or the checks named in meta.json "also_run");
+# writes seeded/RESULTS.tsv: name, property, exit code, first violation key
 cd /verif
+: > seeded/RESULTS.tsv.new
 for d in seeded/*/; do
   n=$(basename $d); id=${n%%-*}
+  [ -f $d/patch.diff ] || continue
   out=$(tools/mutant.sh run $d $id 2>&1)
-  rc=$(echo "$out" | grep -o "RESULT exit=[0-9]*" | tail -1)
+  rc=$(echo "$out" | grep -o "RESULT exit=[0-9]*" | tail -1 | sed 's/RESULT exit=//')
   key=$(echo "$out" | grep -m1 "^VIOLATION" | sed 's/.*key="//; s/" count.*//')
-  echo "$n $rc $key"
+  printf '%s\t%s\t%s\t%s\n' "$n" "$id" "$rc" "$key" | tee -a seeded/RESULTS.tsv.new
 done
+mv seeded/RESULTS.tsv.new seeded/RESULTS.tsv
